@@ -44,31 +44,31 @@ type c03HostVal struct {
 
 // semantic content of one multiValue on the wire
 type c03MV struct {
-	Count                    float64
-	HasValue                 bool
-	Min, Max, Sum, SumSq     float64
-	Uniq                     []int64 // raw values inserted into the sketch that was sent
-	HasDigest                bool
-	DigestW                  float64
-	DigestN                  int
+	Count                     float64
+	HasValue                  bool
+	Min, Max, Sum, SumSq      float64
+	Uniq                      []int64 // raw values inserted into the sketch that was sent
+	HasDigest                 bool
+	DigestW                   float64
+	DigestN                   int
 	MaxHost, MinHost, CntHost c03Host
 }
 
 type c03Acc struct {
-	N                int
-	Count, CountAbs  float64
-	HasValue         bool
-	Min, Max         float64
-	Sum, SumAbs      float64
-	SumSq, SumSqAbs  float64
-	Uniq             map[int64]struct{}
-	HasUniq          bool
-	HasDigest        bool
-	DigestW          float64
-	DigestN          int
-	MinC, MaxC       []c03HostVal
-	CntHosts         map[c03Host]struct{}
-	Kinds            map[string]int
+	N               int
+	Count, CountAbs float64
+	HasValue        bool
+	Min, Max        float64
+	Sum, SumAbs     float64
+	SumSq, SumSqAbs float64
+	Uniq            map[int64]struct{}
+	HasUniq         bool
+	HasDigest       bool
+	DigestW         float64
+	DigestN         int
+	MinC, MaxC      []c03HostVal
+	CntHosts        map[c03Host]struct{}
+	Kinds           map[string]int
 }
 
 func (a *c03Acc) add(m *c03MV) {
@@ -186,16 +186,16 @@ func (a *c03Acc) maxHosts() map[c03Host]struct{} {
 
 // one expected base key (time, metric, tags, stags) with its tops ("" = tail)
 type c03Base struct {
-	Key     string
-	Time    uint32
-	Metric  int32
-	Tops    map[string]*c03Acc
-	Tainted bool // some contribution to it has an unknown fate (RPC error / rejected / budget)
+	Key         string
+	Time        uint32
+	Metric      int32
+	Tops        map[string]*c03Acc
+	Tainted     bool                // some contribution to it has an unknown fate (RPC error / rejected / budget)
 	Sources     map[uint32]struct{} // bucket seconds (args.Time) of the recent contributions
 	HistSources map[uint32]struct{} // bucket seconds of the historic contributions
-	Kind    string
-	Clamped bool
-	FromT   bool // some item reached this row through an explicit (believed) timestamp
+	Kind        string
+	Clamped     bool
+	FromT       bool // some item reached this row through an explicit (believed) timestamp
 }
 
 // canonical row key without the string-top position
@@ -487,6 +487,8 @@ func (g *c03Gen) decorateHosts(v *tlstatshouse.MultiValue, fm *uint32) {
 	switch g.rnd.IntN(14) {
 	case 0:
 		v.SetMaxHostTag(int32(7000+g.rnd.IntN(5)), fm)
+	case 6: // host ids whose little-endian bytes end with non-zero / 0xff bytes
+		v.SetMaxHostTag([]int32{-3, 0x12345678, math.MinInt32, math.MaxInt32, 0x01000000}[g.rnd.IntN(5)], fm)
 	case 1:
 		v.SetMaxHostStag("explicit-host-"+strconv.Itoa(g.rnd.IntN(5)), fm)
 	case 2:
